@@ -298,6 +298,8 @@ type c04Cfg struct {
 	adsDepth  int64 // AdsDepthLimit (0 = unlimited)
 	trusted   bool  // the subscriber's link system has TrustedStorage set
 	noAddrs   bool  // the faulty attempt names the (unknown) publisher without any address
+	// generalHook: the subscriber's hook comes from MakeGeneralBlockHook
+	generalHook bool
 }
 
 func (c c04Cfg) String() string {
@@ -385,6 +387,17 @@ func c04Plan(r *simkit.Run, c Cfg, w *World) (c04Cfg, []faultPlan) {
 			}
 			plans = append(plans, faultPlan{kind: k, at: tp.Choose(cfg.nAds+4, "fat"), arg: tp.Choose(1000, "farg")})
 		}
+		if tp.Chance(1, 4, "generalHook") {
+			cfg.generalHook = true
+			if tp.Chance(1, 2, "generalHook.fail") {
+				// the helper's own business: a failure of the function it
+				// wraps, in a segmented sync
+				plans[0].kind = fkHookFail
+				if cfg.seg <= 0 {
+					cfg.seg = int64(tp.Range(2, 4, "generalHook.seg"))
+				}
+			}
+		}
 	}
 	return cfg, plans
 }
@@ -433,6 +446,9 @@ func runFaultSync(r *simkit.Run, c Cfg, mode string, planner planFunc) {
 		cfg.trusted = r.Tape.Chance(1, 4, "trustedStore")
 	}
 	w.TrustedStore = cfg.trusted
+	// (a quarter of the C04 subscribers get their hook from the library's
+	// helper for segmented syncs)
+	w.GeneralHook = cfg.generalHook
 	sub := w.NewSubscriber(sopts...)
 	sw := &syncWorld{w: w, pub: pub, sub: sub, lst: &listener{}}
 	sw.lst.ch, sw.lst.cancel = sub.Sub.OnSyncFinished()
